@@ -4,7 +4,7 @@
 // Copies an agent's deliverables into seeded/<name>/, confirms them in a scratch worktree (verify_seed.sh),
 // runs every check (quick) against the change applied to /repo (mutant.js) and writes meta.json.
 const fs = require('fs'), path = require('path'), { spawnSync } = require('child_process')
-const [src, name, prop, demoCmd, needs] = process.argv.slice(2)
+const [src, name, prop, demoCmd, needs, mode] = process.argv.slice(2) // mode 'verify-only': confirm, leave the checks to tools/lanes_run.sh
 const V = path.join(__dirname, '..')
 const dst = path.join(V, 'seeded', name)
 fs.mkdirSync(dst, { recursive: true })
@@ -14,7 +14,7 @@ const verifyOut = (v.stdout || '') + (v.stderr || '')
 const confirmed = /RESULT confirmed/.test(verifyOut)
 console.log(verifyOut.split('\n').filter(l => /baseline-with-patch|demo without|RESULT/.test(l)).join('\n'))
 let mut = null
-if (confirmed) {
+if (confirmed && mode !== 'verify-only') {
   const m = spawnSync('node', [path.join(V, 'tools/mutant.js'), path.join(dst, 'patch.diff'), '--checks', 'all', '--skip-tests'], { encoding: 'utf8', maxBuffer: 1 << 26 })
   try { mut = JSON.parse(m.stdout) } catch (e) { console.log('mutant.js output unparsable', m.stdout.slice(-500), m.stderr.slice(-500)) }
 }
